@@ -21,15 +21,19 @@ pub(crate) fn text(r: &Rec, off: usize, n: usize) -> String {
 
 use crate::{strings_down8 as down8, strings_dyn as dynm, strings_up4 as up4};
 
+pub fn str_owns(prop: &str, oracle: &str) -> bool {
+    // a wrong split_off is wrong string behaviour (C09) as well as an inexact partition (C16)
+    oracle.starts_with(prop)
+        || oracle.starts_with("panic")
+        || oracle.starts_with("crash")
+        || (prop == "C09" && oracle.starts_with("C16/str-"))
+        // a string whose bytes change through an operation on another string: C02
+        || (prop == "C02" && oracle == "C16/str-sibling-changed")
+}
+
 impl Engine for StrEngine {
     fn owns(&self, prop: &str, oracle: &str) -> bool {
-        // a wrong split_off is wrong string behaviour (C09) as well as an inexact partition (C16)
-        oracle.starts_with(prop)
-            || oracle.starts_with("panic")
-            || oracle.starts_with("crash")
-            || (prop == "C09" && oracle.starts_with("C16/str-"))
-            // a string whose bytes change through an operation on another string: C02
-            || (prop == "C02" && oracle == "C16/str-sibling-changed")
+        str_owns(prop, oracle)
     }
     fn name(&self) -> &'static str {
         "C/strings"
